@@ -17,13 +17,17 @@
 (*   A B    shape of one raw sample as the stream reader presents it       *)
 (*          (guppi: npol, nchan; stokes: 4, nchan; plain: anything)        *)
 (*   t0 per start time and raw sample period in integer ticks              *)
+(*   blk ceil  0 / FALSE for the code; other values are negative models    *)
+(*          (block-wise conversion, length rounded up), see below          *)
 (* Raw sample number i (0-based, global over all frames and files) has     *)
 (* content id i; its element (a,b) is the record [src |-> <<i>>, ...].     *)
 (***************************************************************************)
 EXTENDS Integers, Sequences, FiniteSets
 
 RawLen(f) == f.spf * f.fpf * f.nfiles
-OutLen(f) == IF f.real THEN RawLen(f) \div 2 ELSE RawLen(f)
+\* real data: two raw samples per output sample, an odd last raw sample is not part of the stream.
+\* (f.ceil = TRUE is a negative model that rounds the other way, Neg_Reader_ceil.cfg.)
+OutLen(f) == IF f.real THEN (IF f.ceil THEN (RawLen(f) + 1) \div 2 ELSE RawLen(f) \div 2) ELSE RawLen(f)
 OutPer(f) == IF f.real THEN 2 * f.per ELSE f.per
 \* a file stores frames; frame fr (0-based, global) lies in file fr \div fpf
 \* and holds the raw samples fr*spf .. fr*spf + spf - 1
@@ -69,9 +73,19 @@ PostSample(f, M) == PostSampleG(f, M, ConjE)
 \* sample per raw sample.  Real data: RealToComplex of the whole block
 \* (module R2C, property C19), abstractly "output m of block S";
 \* ceil(|S|/2) output samples.
+\* The conversion is not local: every output sample of a read depends on the WHOLE block of
+\* 2n raw samples that was read, so the block (its first id and its length) is part of the value
+\* (src).  f.blk = 0 is the code: the read is converted as one block.  f.blk = k > 0 is a negative
+\* model (Neg_Reader_block.cfg) that converts consecutive blocks of at most k output samples.
+RECURSIVE Blocks(_, _)
+Blocks(S, k) == IF Len(S) <= k THEN <<S>> ELSE <<SubSeq(S, 1, k)>> \o Blocks(SubSeq(S, k + 1, Len(S)), k)
+RECURSIVE CatR(_, _)
+CatR(ss, i) == IF i > Len(ss) THEN <<>> ELSE ss[i] \o CatR(ss, i + 1)
+ConvertBlock(f, b) == [m \in 1..((Len(b) + 1) \div 2) |-> PostSample(f, Elem0(f, b, m - 1))]
 PostData(f, S) ==
   IF f.real
-  THEN [m \in 1..((Len(S) + 1) \div 2) |-> PostSample(f, Elem0(f, S, m - 1))]
+  THEN LET bs == IF f.blk = 0 THEN <<S>> ELSE Blocks(S, 2 * f.blk)
+       IN CatR([i \in 1..Len(bs) |-> ConvertBlock(f, bs[i])], 1)
   ELSE [m \in 1..Len(S) |-> PostSample(f, Elem0(f, <<S[m]>>, 0))]
 
 (***************************************************************************)
